@@ -602,7 +602,7 @@ impl Options {
     /// Uses the default specified there.
     #[must_use]
     pub fn get_errors_dir(&self) -> &str {
-        self.public_data_dir.as_deref().unwrap_or("errors")
+        self.errors_dir.as_deref().unwrap_or("errors")
     }
 }
 impl Default for Options {
